@@ -375,6 +375,12 @@ def r14_6(ctx):
 
 
 def run(ctx):
+    # free lists, live set and arena list belong to one heap object (and are re-created by its constructor, which
+    # is how a forked child gets an empty heap)
+    from .generic import per_instance_state
+    per_instance_state(ctx, 'R14.7', ['heap'], floor=5)
+    from .c15 import r15_5
+    r15_5(ctx)
     r14_1(ctx)
     r14_2(ctx)
     r14_3(ctx)
@@ -386,6 +392,10 @@ def run(ctx):
 
 _H = 'billiard/heap.py'
 MUTANTS = [
+    ('free-list-index-shared-by-all-heaps', _H, "    _alignment = 8\n\n    def __init__(self, size=mmap.PAGESIZE):\n        self._lastpid = os.getpid()\n        self._lock = threading.Lock()\n        self._size = size\n        self._lengths = []\n        self._len_to_seq = {}\n",
+     "    _alignment = 8\n    _len_to_seq = {}\n\n    def __init__(self, size=mmap.PAGESIZE):\n        self._lastpid = os.getpid()\n        self._lock = threading.Lock()\n        self._size = size\n        self._lengths = []\n", ('R14.7', 'R15.5')),
+    ('child-keeps-the-inherited-free-lists', _H, "            self.__init__()                     # reinitialize after fork\n",
+     "            self._lastpid = os.getpid()\n            self._lock = threading.Lock()\n            self._allocated_blocks = set()\n", 'R15.5'),
     ('reentrant-heap-lock', _H, "        self._lock = threading.Lock()", "        self._lock = threading.RLock()", 'R14.1'),
     ('free-without-lock', _H, "        if not self._lock.acquire(False):\n            # can't acquire the lock right now, add the block to the list of\n            # pending blocks to free\n            self._pending_free_blocks.append(block)\n        else:\n            # we hold the lock\n            try:\n                self._free_pending_blocks()\n                self._allocated_blocks.remove(block)\n                self._free(block)\n            finally:\n                self._lock.release()",
      "        self._free_pending_blocks()\n        self._allocated_blocks.remove(block)\n        self._free(block)", 'R14.1'),
